@@ -22,7 +22,7 @@ Next == /\ kind = "str" /\ Len(val) < 6
         /\ UNCHANGED kind
 Spec == Init /\ [][Next]_vars
 
-Accept(idx) == ChecksumOK(idx, Toy(CandidateEntropy(idx, wb, cd)), wb, cd)
+Accept(idx) == Bip39ChecksumOK(idx, Toy(CandidateEntropy(idx, wb, cd)), wb, cd)
 
 EntropyRoundTrip ==
   kind = "ent" =>
